@@ -7,6 +7,7 @@ static struct isal_hufftables HT;
 static uint8_t *ebuf, *eout, *cbuf;
 static struct ri_result ER;
 static char hdesc[300];
+static int CT_RUNCHECK; /* set by the histogram loops for the tables that get the run-prefix one-shot check */
 #define PAYMAX 260000
 
 static void emit(struct bw *w, uint64_t code, uint64_t len) { bw_bits(w, (uint32_t)code, (int)len); }
@@ -144,6 +145,48 @@ static int check_tables(int subset, const char *builder, int deep)
 		return 1;
 	}
 	v_count("table_entries_decoded", 257 + 256 + 58);
+	/* (2b) the one-shot path that emits a canned block for a leading run of 00 / FF and then writes THIS table's stored header at an
+	 * unaligned bit position: run lengths 4096..4103 (every bit phase of the canned block) x both fill bytes, followed by bytes that
+	 * have codes; checked with zlib. Done for a thirteenth of the histograms (every table has its own header length and tail bits). */
+	if (deep || CT_RUNCHECK) {
+		static uint8_t rin[4600], rout[12000], rback[4700];
+		uint8_t tailb[2];
+		int nt2 = 0;
+		for (int i = 255; i >= 0 && nt2 < 2; i--)
+			if (b->ll_len[i] && (!subset || H.lit_len_histogram[i]))
+				tailb[nt2++] = (uint8_t)i;
+		for (int fill = 0; fill < 2 && nt2 == 2; fill++) {
+			uint8_t fb = fill ? 0xff : 0x00;
+			if (!b->ll_len[fb] || (subset && !H.lit_len_histogram[fb]))
+				continue;
+			for (int r = 0; r < 8; r++) {
+				int rl = 4096 + r, n = rl + 300;
+				memset(rin, fb, rl);
+				for (int i = rl; i < n; i++)
+					rin[i] = tailb[(i * 7 + i / 3) & 1];
+				static struct isal_zstream zs;
+				isal_deflate_stateless_init(&zs);
+				zs.level = 0;
+				zs.hufftables = &HT;
+				zs.next_in = rin; zs.avail_in = n; zs.end_of_stream = 1; zs.next_out = rout; zs.avail_out = sizeof rout;
+				int rr2 = isal_deflate_stateless(&zs);
+				v_eval();
+				z_stream z;
+				memset(&z, 0, sizeof z);
+				inflateInit2(&z, -15);
+				z.next_in = rout; z.avail_in = zs.total_out; z.next_out = rback; z.avail_out = sizeof rback;
+				int zr = inflate(&z, Z_FINISH);
+				int ok = rr2 == COMP_OK && zr == Z_STREAM_END && z.total_out == (uLong)n && !memcmp(rback, rin, n);
+				inflateEnd(&z);
+				if (!ok) {
+					v_violation(key, "one-shot level 0 with this table on %d x %02x + 300 coded bytes: isal_deflate_stateless %d, zlib %d after %lu bytes (stored header: %u bytes + %u bits)", rl, fb, rr2, zr, z.total_out,
+						    HT.deflate_hdr_count, HT.deflate_hdr_extra_bits);
+					return 1;
+				}
+				v_count("run_prefix_round_trips", 1);
+			}
+		}
+	}
 	if (!deep)
 		return 0;
 	/* (3) usable by the real encoder: worst-case payload + designed inputs, level 0, all flush modes, 3 kernels: round trip */
@@ -348,7 +391,9 @@ int main(int argc, char **argv)
 					snprintf(wd + strlen(wd), sizeof wd - strlen(wd), "%d:%llx ", pos, (unsigned long long)wv);
 				}
 				snprintf(hdesc, sizeof hdesc, "histogram{%s}", wd);
+				CT_RUNCHECK = code % 13 == 0;
 				run_hist(code % 97 == 0);
+				CT_RUNCHECK = 0;
 				v_nontrivial(v_mix(si, code));
 			}
 	}
